@@ -22,6 +22,7 @@ func runC11(c *Check, a *Analysis) {
 	sc := siteCounter{}
 	ruleRecycleClean(c, a, "R-RECYCLE-CLEAN")
 	ruleUserBytesFresh(c, a, "R-USER-BYTES-FRESH")
+	rulePoolOwnBuffers(c, a, "R-POOL-OWN-BUFFERS")
 	ruleStreamFreshValue(c, a, "R-STREAM-FRESH-VALUE")
 	c.Rule("R-SERVER-COPY", "the bytes passed to ServerCodec.ReadRequestBody together with a handler argument object are clean, except on φ-edges whose predecessor is dominated by Server.noCopy == true", 1)
 	n := 0
